@@ -386,6 +386,9 @@ IdealRemoveRec(ws, P, ret) ==
   IF ws.phase # "open" THEN ws
   ELSE LET S == {k \in DOMAIN ws.uw : ws.uw[k].rec /\ ws.uw[k].root = P} IN
        IF S = {} THEN (IF ret = "ErrNonExistentWatch" THEN ws ELSE Bad(ws, {"C04", "C19"}, "remove_nonexistent:" \o ret))
+       \* (lag window, as for a single watch: a directory of the tree was deleted and its end record is still pending -
+       \*  inotify_rm_watch reports EINVAL for it; the watch set is released all the same)
+       ELSE IF ret = "errno:EINVAL" /\ \E k \in S : ws.uw[k].st # "live" THEN Note(Relax([ws EXCEPT !.uw = Without(@, S)], S), "remove_in_lag")
        ELSE IF ret # "ok" THEN Bad(Relax([ws EXCEPT !.uw = Without(@, S)], S), {"C04", "C19"}, "remove_failed:" \o ret)
        ELSE Note(Relax([ws EXCEPT !.uw = Without(@, S)], S), "recursive_remove")
 
@@ -447,19 +450,20 @@ CheckObs(ws00, o, defcap) ==
       wantCap == IF ws.cap < 0 THEN defcap ELSE ws.cap
       w0 == IF o.cap # wantCap THEN Bad(ws, {"C14"}, "capacity") ELSE ws
   IN
-  IF ws.phase = "closed" \/ ws.fog \/ ws.recursive THEN w0
+  IF ws.phase = "closed" \/ ws.fog THEN w0
   ELSE
   LET inos  == {o.marks[k].ino : k \in 1..Len(o.marks)}
       liveI == Live(ws)
       allI  == DOMAIN ws.uw
-      w1 == IF liveI \ inos # {} THEN Bad(w0, {"C12", "C04"}, "listed_path_without_mark") ELSE w0
+      \* (a new directory of a recursive tree is marked only when the reader gets to its Create: not judged here)
+      w1 == IF ~ws.recursive /\ liveI \ inos # {} THEN Bad(w0, {"C12", "C04"}, "listed_path_without_mark") ELSE w0
       w2 == IF inos \ allI # {}
             THEN Bad(w1, {"C12"}, "orphan_mark" \o (IF "repoint" \in ws.nontriv \/ "repoint_alias" \in ws.nontriv THEN ":after_repoint" ELSE ""))
             ELSE w1
       w3 == IF ~o.locked /\ (o.nwd # o.npath \/ o.danglers > 0)
             THEN Bad(w2, {"C12", "C04"}, "tables_disagree" \o (IF "repoint_alias" \in ws.nontriv THEN ":after_alias_repoint" ELSE ""))
             ELSE w2
-      w4 == IF ~o.locked /\ o.nwd # -1 /\ (o.nwd < Cardinality(liveI) \/ o.nwd > Cardinality(allI)) /\ o.nwd = o.npath
+      w4 == IF ~ws.recursive /\ ~o.locked /\ o.nwd # -1 /\ (o.nwd < Cardinality(liveI) \/ o.nwd > Cardinality(allI)) /\ o.nwd = o.npath
             THEN Bad(w3, {"C12"}, "table_size") ELSE w3
   IN w4
 =============================================================================
